@@ -6,6 +6,7 @@ import Bgpfu.Drive.Writers
 import Bgpfu.Drive.Policy
 import Bgpfu.Drive.Builders
 import Bgpfu.Drive.LogTable
+import Bgpfu.Drive.Irr
 /-! `modeld`: one request per line on stdin, one answer per line on stdout.
 A line is `<op> <arg>…` separated by single spaces; unknown ops / malformed args answer `bad-op`. -/
 
@@ -20,6 +21,7 @@ def dispatch (ws : List String) : String :=
     | "plan" :: rest => Policy.drive rest
     | "build" :: rest => Builders.drive rest
     | "logs" :: rest => LogTable.drive rest
+    | "irr" :: rest => Irr.drive rest
     | _ => none
   r.getD "bad-op"
 
